@@ -34,7 +34,10 @@ type C06Script struct {
 	Pointer  int                  `json:"pointer"`
 	Before   []ref.ForeignSection `json:"before,omitempty"`
 	Trailing int                  `json:"trailing"`
-	Wire     Wire                 `json:"wire"`
+	// Prelude: complete foreign sections carried as units of their own (own unit start) on
+	// the PMT PID before the PMT's unit - "other complete sections before it" in the stream
+	Prelude []ref.ForeignSection `json:"prelude,omitempty"`
+	Wire    Wire                 `json:"wire"`
 	TH       [4]int               `json:"table_header"` // table_id, syntax, private, section_length for the header round trip
 }
 
@@ -56,7 +59,7 @@ func (c06) Info() core.Info {
 			"descriptor bodies are compared through the decoders for the decodable kinds; opaque descriptors by tag only (the API exposes no raw body)",
 			"after an injected reader error ReadPMT may return that error or the exact answer; truncation before the last needed packet must give ErrPMTNotFound",
 		},
-		RequiredProbes: []string{"first_packet_payload_le3", "split_inside_header", "split_inside_descriptor", "split_before_crc", "pointer_gt0", "foreign_section_before", "interleaved", "af_len0_stuffing", "multi_packet_ge3", "section_len_ge_1000", "other_pmt_on_other_pid", "trailing_stuffing", "truncated_before_end", "zero_streams", "es_info_length_ge_256", "program_info_length_ge_256"},
+		RequiredProbes: []string{"first_packet_payload_le3", "split_inside_header", "split_inside_descriptor", "split_before_crc", "pointer_gt0", "foreign_section_before", "interleaved", "af_len0_stuffing", "multi_packet_ge3", "section_len_ge_1000", "other_pmt_on_other_pid", "trailing_stuffing", "truncated_before_end", "zero_streams", "es_info_length_ge_256", "program_info_length_ge_256", "prelude_unit_on_pmt_pid"},
 	}
 }
 
@@ -109,6 +112,13 @@ func (c06) Gen(r *core.Rand, tier string) interface{} {
 		s.Before = append(s.Before, genForeignSection(r))
 	}
 	s.Trailing = r.Pick(0, 0, 1, 2, 10, 100, 200)
+	for i := r.Pick(0, 0, 0, 0, 1, 2); i > 0; i-- {
+		f := genForeignSection(r)
+		if r.Chance(1, 3) {
+			f.Body = r.Bytes(r.Range(150, 400)) // a unit of its own that spans packets
+		}
+		s.Prelude = append(s.Prelude, f)
+	}
 	plen := 1 + s.Pointer + len(s.PMT.Section()) + s.Trailing
 	for _, f := range s.Before {
 		plen += len(f.Section())
@@ -203,14 +213,20 @@ type wireResult struct {
 	cum    []int // cum[k] = payload bytes carried by packets 0..k
 }
 
-func buildWire(w Wire, payload []byte, c *core.Ctx) wireResult {
+func buildWire(w Wire, payload []byte, c *core.Ctx, prefix ...parties.Pkt) wireResult {
 	var res wireResult
 	res.pkts = parties.Packetise(payload, w.Carrier)
-	seq, from := parties.Mux([][]parties.Pkt{res.pkts, foreignPkts(w, c)}, w.Picks)
+	main := append(append([]parties.Pkt(nil), prefix...), res.pkts...)
+	seq, from := parties.Mux([][]parties.Pkt{main, foreignPkts(w, c)}, w.Picks)
 	res.stream = parties.Flatten(seq)
 	res.from = from
 	pos, k := 0, 0
+	skip := len(prefix)
 	for i, q := range from {
+		if q == 0 && skip > 0 {
+			skip--
+			continue
+		}
 		if q == 0 {
 			n := 184
 			if k < len(w.Carrier.Sizes) {
@@ -428,7 +444,16 @@ func (c06) Exec(script interface{}, c *core.Ctx) {
 	}
 
 	// --- the stream
-	w := buildWire(s.Wire, payload, c)
+	var prelude []parties.Pkt
+	for i, f := range s.Prelude {
+		if f.TableID == 0x02 || f.TableID == 0xFF {
+			f.TableID = 0x42
+		}
+		prelude = append(prelude, parties.Packetise(ref.Payload(i%3, [][]byte{f.Section()}, 0),
+			parties.Carrier{PID: s.Wire.Carrier.PID, CC: i, Styles: []string{"ff", "ff", "ff", "ff"}})...)
+		c.Probe("prelude_unit_on_pmt_pid")
+	}
+	w := buildWire(s.Wire, payload, c, prelude...)
 	c.Unit("packets_on_wire", int64(len(w.stream)/188))
 	c.Unit("stream_bytes", int64(len(w.stream)))
 	c.Log("wire %x", w.stream)
@@ -686,6 +711,11 @@ func (c06) Shrink(script interface{}) []interface{} {
 			n.Before[i].Body = nil
 			out = append(out, &n)
 		}
+	}
+	if len(s.Prelude) > 0 {
+		n := *s
+		n.Prelude = nil
+		out = append(out, &n)
 	}
 	if s.Pointer > 0 {
 		n := *s
